@@ -61,9 +61,16 @@ def run(ctx):
         n = vlib.extract_gen(r.out, gen)
         if n == 0:
             raise Infra("generator produced no behaviours")
-        out = vlib.run_test(binary, "TestReplay", {"VERIF_IN": gen, "VERIF_OUT": gen + ".result"}, timeout=1500)
-        res = json.load(open(gen + ".result"))
-        res["mismatches"] = res.get("mismatches") or []
+        nsh = 8
+        import concurrent.futures
+
+        def shard(i):
+            vlib.run_test(binary, "TestReplay", {"VERIF_IN": gen, "VERIF_OUT": gen + ".result%d" % i, "VERIF_SHARD": "%d/%d" % (i, nsh)}, timeout=2400)
+            return json.load(open(gen + ".result%d" % i))
+        with concurrent.futures.ThreadPoolExecutor(max_workers=nsh) as ex:
+            parts = list(ex.map(shard, range(nsh)))
+        res = {"behaviours": sum(p["behaviours"] for p in parts), "blocks": sum(p["blocks"] for p in parts),
+               "mismatches": [m for p in parts for m in (p.get("mismatches") or [])]}
         replayed += res["behaviours"]
         blocks += res["blocks"]
         if not cov["samples"]:
